@@ -391,7 +391,7 @@ def run(ctx: Ctx) -> None:
     from . import storerules as _S17
     rep.rule("C17.R16", "results are read back from the file the codec wrote: every deserialize_from of the local store's fetch_blob is handed the blob location, whatever the kind of codec")
     n16 = _S17.decode_reads_blob(ctx, _S17.LocalView(ctx), "C17.R16")
-    rep.floor("C17.R16", n16, 2)
+    rep.floor("C17.R16", n16, 1)
     if rep.prop == "C17":
         from .c09 import load_checks_presence as _lcp
         rep.rule("C17.R15", "as C09.R18: load decides that a blob is absent by asking has_blob, never by looking at the decoded value: a result that is None is read back as None")
@@ -790,7 +790,7 @@ def _dict_attrs(reg: Class) -> Tuple[str, ...]:
     return tuple(out)
 
 
-def _dominated_by_table_test(m: Func, n: ast.AST, tables) -> bool:
+def _dominated_by_table_test(m: Func, n: ast.AST, tables, consts: Optional[Dict[str, Any]] = None) -> bool:
     """the store is reached only through an outcome of a membership test on one of the tables (also the early-return form: `if key in table: return` before it)"""
     from ..cfg import cfg_of as _cfg_of
     cfg = _cfg_of(m)
@@ -798,18 +798,53 @@ def _dominated_by_table_test(m: Func, n: ast.AST, tables) -> bool:
     while st is not None and not isinstance(st, ast.stmt):
         st = m.module.parent.get(st)
     tg = cfg.nodes_of(st) if st is not None else []
+    # when a constant flag of the caller decides an `or` / `and` (short-circuit), the membership test behind it is not evaluated: the outcomes of the flag's own
+    # branch node that cannot happen are left out, and so is everything they alone lead to
+    impossible = [b for b in cfg.nodes if b.kind == "branch" and isinstance(b.ast, ast.Name) and consts and b.ast.id in consts and (b.label == "T") != bool(consts[b.ast.id])]
     for b in cfg.nodes:
         if b.kind == "branch" and b.ast is not None and isinstance(b.ast, ast.expr) and any(
                 isinstance(x, ast.Compare) and len(x.ops) == 1 and isinstance(x.ops[0], (ast.In, ast.NotIn)) and isinstance(x.comparators[0], ast.Attribute) and x.comparators[0].attr in tables
                 for x in ast.walk(b.ast)):
-            if tg and all(cfg.dominated_by(t_, [b]) is None for t_ in tg):
+            if consts and cfg.find_path([cfg.entry], [b], avoid=impossible) is None:
+                continue
+            if tg and all(cfg.find_path([cfg.entry], [t_], avoid=[b] + impossible) is None and cfg.find_path([cfg.entry], [t_], avoid=impossible) is not None for t_ in tg) \
+                    and all(cfg.dominated_by(t_, [b]) is None for t_ in tg) or (consts and tg and all(
+                        cfg.find_path([cfg.entry], [t_], avoid=impossible) is not None and cfg.find_path([cfg.entry], [t_], avoid=impossible + [b]) is None for t_ in tg)):
                 return True
     return False
 
 
-def _table_stores(ctx: Ctx, reg: Class, m: Func, guards: List[str], depth: int) -> List[Tuple[str, str, str]]:
+def _truth_under(test: ast.AST, consts: Dict[str, Any]) -> Optional[bool]:
+    """three-valued truth of a test when some parameters are known constants (a helper shared by two registration methods that pass a flag)"""
+    if isinstance(test, ast.Name) and test.id in consts:
+        return bool(consts[test.id])
+    if isinstance(test, ast.Constant):
+        return bool(test.value)
+    if isinstance(test, ast.UnaryOp) and isinstance(test.op, ast.Not):
+        v = _truth_under(test.operand, consts)
+        return None if v is None else (not v)
+    if isinstance(test, ast.BoolOp):
+        vs = [_truth_under(v, consts) for v in test.values]
+        if isinstance(test.op, ast.Or):
+            return True if any(v is True for v in vs) else (False if all(v is False for v in vs) else None)
+        return False if any(v is False for v in vs) else (True if all(v is True for v in vs) else None)
+    return None
+
+
+def _table_stores(ctx: Ctx, reg: Class, m: Func, guards: List[str], depth: int, consts: Optional[Dict[str, Any]] = None) -> List[Tuple[str, str, str]]:
     """(table attribute, 'unconditional' | 'guarded', where) for stores self.<table>[...] = codec reachable from m"""
     out: List[Tuple[str, str, str]] = []
+    consts = dict(consts or {})
+    # locals bound once, to a constant (the parameter bindings of an expanded helper: `takes_precedence = True`)
+    _once: Dict[str, List[ast.AST]] = {}
+    for st_ in m.own_nodes():
+        if isinstance(st_, (ast.Assign, ast.AnnAssign)) and st_.value is not None:
+            tg_ = st_.targets[0] if isinstance(st_, ast.Assign) and len(st_.targets) == 1 else (st_.target if isinstance(st_, ast.AnnAssign) else None)
+            if isinstance(tg_, ast.Name):
+                _once.setdefault(tg_.id, []).append(st_.value)
+    for nm_, vs_ in _once.items():
+        if len(vs_) == 1 and isinstance(vs_[0], ast.Constant) and nm_ not in m.params:
+            consts.setdefault(nm_, vs_[0].value)
     tables = _dict_attrs(reg)
     # a local dictionary that becomes the table (`protocols = {}; ...; self._protocols = protocols`)
     local_tables = _local_tables(m, tables)
@@ -823,10 +858,11 @@ def _table_stores(ctx: Ctx, reg: Class, m: Func, guards: List[str], depth: int) 
             out.append((t, "guarded" if guarded else "unconditional", m.loc(n)))
         elif isinstance(n, ast.Subscript) and isinstance(n.ctx, ast.Store) and isinstance(n.value, ast.Attribute) and n.value.attr in tables:
             t = n.value.attr
-            guarded = bool(guards) or _dominated_by_table_test(m, n, tables)
+            guarded = bool(guards) or _dominated_by_table_test(m, n, tables, consts)
             for a in _anc(m, n):
                 if isinstance(a, ast.If) and any(isinstance(x, ast.Attribute) and x.attr == t for x in ast.walk(a.test)):
-                    guarded = True
+                    if _truth_under(a.test, consts) is None:   # a test decided by a constant flag of the caller guards nothing
+                        guarded = True
             out.append((t, "guarded" if guarded else "unconditional", m.loc(n)))
         elif isinstance(n, ast.Call) and isinstance(n.func, ast.Attribute) and n.func.attr == "setdefault" and isinstance(n.func.value, ast.Attribute) and n.func.value.attr in tables:
             out.append((n.func.value.attr, "guarded", m.loc(n)))
@@ -837,5 +873,14 @@ def _table_stores(ctx: Ctx, reg: Class, m: Func, guards: List[str], depth: int) 
                 for a in _anc(m, n):
                     if isinstance(a, ast.If) and any(isinstance(x, ast.Attribute) and x.attr in tables for x in ast.walk(a.test)):
                         sub_guards.append(unparse(a.test, 40))
-                out += _table_stores(ctx, reg, g, sub_guards, depth + 1)
+                # constants handed to the helper (`self._register(codec, takes_precedence=True)`)
+                sub_consts: Dict[str, Any] = {}
+                gps = [p_ for p_ in g.positional_params() if p_ != "self"]
+                for i_, a_ in enumerate(n.args):
+                    if isinstance(a_, ast.Constant) and i_ < len(gps):
+                        sub_consts[gps[i_]] = a_.value
+                for k_ in n.keywords:
+                    if k_.arg and isinstance(k_.value, ast.Constant):
+                        sub_consts[k_.arg] = k_.value.value
+                out += _table_stores(ctx, reg, g, sub_guards, depth + 1, sub_consts)
     return out
